@@ -64,6 +64,23 @@ theorem C20_reload_idempotent (c : Cfg) (s : St) :
 
 example : runMsgs {} (contents sampleCfg) ≠ ({} : St) := by decide
 
+/-- **Reloading any number of times is loading once**: the command list of a
+    configuration dispatched `n + 1` times over any state gives the state of the
+    first pass (what `load_static_config` does on every reload). -/
+theorem C20_reload_any_number_of_times (c : Cfg) (n : Nat) (s : St) :
+    reloadN c (n + 1) s = runMsgs s (contents c) :=
+  c20_reload_any_number_of_times c n s
+
+/-- backends sharing a `backend_id` across addresses: the first load holds all
+    three, the reload (once, twice) leaves exactly that state -/
+example :
+    (runMsgs {} (contents sharedBackendIdCfg)).backends =
+      [(3, .explicit 7, 40), (3, .explicit 7, 60), (3, .dflt 3 2 41, 41)] ∧
+    runMsgs (runMsgs {} (contents sharedBackendIdCfg)) (contents sharedBackendIdCfg)
+      = runMsgs {} (contents sharedBackendIdCfg) ∧
+    runMsgs (runMsgs (runMsgs {} (contents sharedBackendIdCfg)) (contents sharedBackendIdCfg))
+        (contents sharedBackendIdCfg) = runMsgs {} (contents sharedBackendIdCfg) := by decide
+
 /-- the order matters for this: an activation that comes before its listener is
     refused the first time and succeeds the second time -/
 theorem C20_reload_needs_order :
